@@ -103,6 +103,19 @@ def rc_job(target, tag, quick, thorough, name=None, extra=()):
         return [exe, "--prop", prop, "--replay", path, "--quiet"]
     return dict(name=name or tag, engine_tag=tag, target=target, instances=instances, cmd=cmd, replay=replay, timeout=dict(quick=900, thorough=5400))
 
+# ---------------------------------------------------------------- python engines (P, K): programs generated with Hypothesis, compilers as SUT
+def py_job(script, tag, name, replay_only=False):
+    H = os.path.join(os.path.dirname(os.path.dirname(os.path.abspath(__file__))), "harness")
+    def instances(tier):
+        return [dict(label=tag)]
+    def cmd(exe, prop, tier, seed, inst, out, rundir, excluded):
+        return ["python3-vt", os.path.join(H, script), "--prop", prop, "--tier", tier, "--seed", str(seed), "--out", out, "--faildir", rundir, "--quiet"], {}
+    def replay(exe, prop, path):
+        rundir = os.path.join(os.path.dirname(os.path.dirname(os.path.abspath(__file__))), "build", "run", prop + ".replay")
+        os.makedirs(rundir, exist_ok=True)
+        return ["python3-vt", os.path.join(H, script), "--prop", prop, "--replay", path, "--faildir", rundir, "--quiet"]
+    return dict(name=name, engine_tag=tag, target=None, instances=(lambda tier: []) if replay_only else instances, cmd=cmd, replay=replay, timeout=dict(quick=1500, thorough=7200), replay_timeout=600)
+
 Q = 6000
 PROPS = {
     "C01": dict(jobs=W([("plain", Q, 50), ("all", Q, 50)], [("plain", 40000, 90, 6), ("all", 40000, 90, 6), ("overlap", 40000, 90, 4)], [("plain", 20000, 70, 2)], fuzz=("all", 4000, 120000)),
@@ -126,8 +139,9 @@ PROPS = {
     "C07": dict(jobs=W([("forbid", Q, 50), ("overlap", Q, 50)], [("forbid", 40000, 90, 10), ("overlap", 40000, 90, 6)], [("forbid", 20000, 70, 2)]),
                 rule=W_RULE + "non-trivial (C07): a forbidding expectation is hit at least once and some other call is accepted in the same history.",
                 assumptions=W_ASSUME),
-    "C08": dict(jobs=W([("clauses", Q, 50), ("trace", Q, 50)], [("clauses", 40000, 90, 10), ("trace", 40000, 90, 6)], [("clauses", 20000, 70, 2)]),
-                rule=W_RULE + "non-trivial (C08): >= 2 side-effect/return events or >= 2 WITH evaluations together with a multi-candidate, nested or throwing call.",
+    "C08": dict(jobs=W([("clauses", Q, 50), ("trace", Q, 50)], [("clauses", 40000, 90, 10), ("trace", 40000, 90, 6)], [("clauses", 20000, 70, 2)])
+                     + [rc_job("c8_rc", "C8", (3, 8000, 60), (10, 50000, 100)), rc_job("c8_rc_gcc", "C8", (0, 0, 0), (4, 30000, 100), name="C8(g++)")],
+                rule=W_RULE + "non-trivial (C08): >= 2 side-effect/return events or >= 2 WITH evaluations together with a multi-candidate, nested or throwing call. Engine C8 adds 108 literal expectation sites with 0-3 WITH x 0-3 SIDE_EFFECT clauses (plain and LR_), 6 clause orders and value / reference / pointer / by-value string and vector returns (RETURN of non-const lvalues must copy, not move); cases = 1-4 live expectations + 1-24 (nested) calls against a recursive interpreter.",
                 assumptions=W_ASSUME),
     "C13": dict(jobs=W([("death", Q, 50), ("teardown", Q, 50)], [("death", 40000, 90, 10), ("teardown", 40000, 90, 6)], [("death", 20000, 70, 2)]),
                 rule=W_RULE + "non-trivial (C13): >= 3 deathwatched events (watch, unwatch, destruction, copy/move/assign) in one history.",
@@ -164,6 +178,38 @@ PROPS = {
                      "1152 states x 2 byte patterns. non-trivial = prior state differs from default in >= 2 dimensions, or value depth >= 2, or opaque size > 8 and not a multiple of 16; distinct by rendered case.",
                 assumptions=["with a prior width > 0 the first token of a composite / a null may be padded and the width need not be restored there (property speaks of leaves and of streamable / hex-dumped values)",
                              "a setw() inside a user operator<< may pad on either side with blanks; after a user printer<T> only the text is asserted"]),
+    "C10": dict(jobs=[rc_job("m_rc", "M", (3, 10000, 70), (12, 60000, 100)), rc_job("m_rc_gcc", "M", (0, 0, 0), (4, 30000, 100), name="M(g++)"), py_job("compile/k_engine.py", "K", "K(replay only)", replay_only=True)],
+                rule="engine M: rapidcheck generates typed matcher trees of depth <= 4 over 8 parameter domains (int, int*, unique_ptr<int>, shared_ptr<int>, std::string, char const*, struct S, S*) built from the "
+                     "library's own matchers and combinators (eq/ne/lt/le/gt/ge, _, ANY, !, *, any_of/all_of/none_of with 1-4 operands, MEMBER_IS, re with flags, plain values; duck-typed and explicitly typed) behind a "
+                     "make_matcher wrapper; every tree is evaluated through param_matches on every value of its domain and compared with an independent evaluator; algebraic laws; a sample goes through real mock calls. "
+                     "Plus the exhaustive scope of all int trees of depth <= 2. non-trivial = depth >= 2 with a combinator and a relational leaf whose operand lies inside the domain; distinct by tree hash.",
+                assumptions=["combinators with zero operands are not generated", "std::string operands on a char const* parameter only behind the documented null guards",
+                             "MEMBER_IS operands are rvalues (an lvalue operand does not compile once used in an expectation: noted, outside C10's statement)"]),
+    "C11": dict(jobs=[rc_job("r_rc", "R", (3, 20000, 70), (10, 60000, 100), extra=()), rc_job("r_rc", "R", (0, 0, 0), (1, 1000, 40), name="R(full scope)", extra=("--scope", "full", "--mode", "enum")),
+                      rc_job("r_rc_gcc", "R", (0, 0, 0), (4, 30000, 100), name="R(g++)"), py_job("compile/k_engine.py", "K", "K(replay only)", replay_only=True)],
+                rule="engine R: exhaustive small scope (every range over {1,2,3} up to length 4 x every element list up to length 3; thorough: 5 x 4) x 8 range matchers x element-list / container spellings x "
+                     "{vector, init-list vector, list, deque, std::array, C array}, plus rapidcheck-generated longer ranges with overlapping element matchers; oracle = multiset / prefix / suffix / quantifier semantics and a "
+                     "nondeterministic first-fit simulation (asserted only when every choice path agrees). non-trivial = duplicate in range or list, length mismatch by one, or an empty side.",
+                assumptions=["overlapping element matchers whose answer depends on the first-fit order are skipped (documented as 'may or may not match')",
+                             "range_is_permutation with a single non-range element is not generated (does not compile: noted as a compile-time observation, see DESIGN.md 9)"]),
+    "C20": dict(jobs=[rc_job("q_rc", "Q", (3, 8000, 70), (12, 40000, 100)), rc_job("q_rc_gcc", "Q", (0, 0, 0), (4, 20000, 100), name="Q(g++)"), py_job("compile/k_engine.py", "K", "K(replay only)", replay_only=True)],
+                rule="engine Q (C++20): 80 expectation sites over own task<T> / gen<Y,R> coroutine types (eager and lazy): 0-4 CO_YIELD / LR_CO_YIELD, CO_RETURN value / void / throwing, CO_THROW, SIDE_EFFECT, matchers, TIMES, "
+                     "RT_TIMES, IN_SEQUENCE; a case = site + data + 1-3 calls (+ optional second sequenced expectation) + a generated interleaving of resume steps; oracle: matched / counted / sequence-checked / side effects at "
+                     "call time, then exactly the yields in order, then return / completion / exception at the resume point, per coroutine object. non-trivial = >= 2 yields and >= 2 coroutine objects of one expectation resumed interleaved, or a throwing completion.",
+                assumptions=["clauses that can run after the call returned do not name _N (dangling by-value parameters are the caller's lifetime problem)",
+                             "the expectation outlives the coroutine's evaluation of its clauses"]),
+    "C09": dict(jobs=[py_job("params/p_engine.py", "P", "P(generated programs)")],
+                rule="engine P: Hypothesis generates translation units of 6-12 mock functions with arity 0..15 and an independently drawn passing mode per position (int, int&, int const&, int&&, int*, Tr by value/&/const&/&&, "
+                     "unique_ptr by value/&&), const / overloaded / IMPLEMENT_MOCK over a generated interface, void / int / T& returns; the oracle lives in the generated clauses and driver (address identity, caller-visible writes, copy/move "
+                     "counters, positional tags, RETURN(_k) aliasing, plain-vs-LR_ capture); each TU is compiled with ASan/UBSan and run. evaluations = functions checked; non-trivial = arity >= 2 with >= 2 passing modes; distinct by (arity, modes, kind, return).",
+                assumptions=["a generated TU that does not compile is a harness error, not a violation", "compilers: clang++ c++17 (quick); g++/clang++ x c++14/17/20 (thorough)"],
+                parallel=dict(quick=1, thorough=1)),
+    "C19": dict(jobs=[py_job("compile/k_engine.py", "K", "K(compilers as SUT)")],
+                rule="engine K: (a) the 68 shipped compilation_errors/*.cpp with their own pass regex and exception rules; (b) macro namespace dump of every public header with TROMPELOEIL_LONG_MACROS (every macro defined by the "
+                     "library must start with TROMPELOEIL_) and presence of every documented short macro without it; (c) Hypothesis-generated programs = signature kind x macro family x clause sequence (<= 6, any order): legal ones must compile "
+                     "with g++ and clang++ at C++14/17/20, single-fault ones must fail with the documented message of the violated rule row (45 rows), multi-fault ones with one of the applicable messages. non-trivial = >= 2 clauses; distinct by (signature, family, clause sequence) / cell.",
+                assumptions=["only the documented message substring is matched", "generated programs are compiled against a precompiled header built from the tree under test; a sample and every disagreement are rechecked without it"],
+                parallel=dict(quick=1, thorough=1)),
 }
 for _p in PROPS.values():
     _p.setdefault("parallel", dict(quick=8, thorough=16))
